@@ -22,6 +22,7 @@ import (
 	"sort"
 	"strconv"
 	"strings"
+	"sync/atomic"
 	"time"
 
 	"github.com/scrapli/scrapligo/driver/generic"
@@ -559,6 +560,8 @@ var c19Named = map[string][]string{
 
 var c19DriverOpts, c19LoggingOpts []string
 
+var c19FileSeq atomic.Int64
+
 func init() {
 	for n := range c19Named {
 		if strings.HasPrefix(n, "logging_") {
@@ -827,6 +830,9 @@ func optWrites(o c19Opt) map[string]c19Val {
 func goSpec(plat *c19Plat, user []c19Opt) (map[string]c19Val, bool) {
 	var all []c19Opt
 	if plat != nil {
+		plat = plat.merged()
+	}
+	if plat != nil {
 		if len(plat.fwc) > 0 {
 			all = append(all, c19Opt{name: "WithFailedWhenContains", args: []c19Val{lv(plat.fwc...)}})
 		}
@@ -946,6 +952,44 @@ type c19Plat struct {
 	privs      c19Val
 	ddp        string
 	opts       []c19PlatOpt
+	via        string   // "" = YAML bytes, "file" = path of a YAML file handed to NewPlatform
+	variant    *c19Plat // NewPlatformVariant(def, "v1", ...) with this variant block
+}
+
+// merged: Go-side copy of Platform.mergeVariant (independent of the Lean model): the variant
+// replaces what it sets; the options block of a variant is not merged.
+func (p *c19Plat) merged() *c19Plat {
+	if p.variant == nil {
+		return p
+	}
+	v := p.variant
+	m := *p
+	m.variant = nil
+	if v.driverType != "" {
+		m.driverType = v.driverType
+	}
+	if len(v.fwc) > 0 {
+		m.fwc = v.fwc
+	}
+	if v.oo {
+		m.oo = true
+	}
+	if v.oc {
+		m.oc = true
+	}
+	if len(v.privs) > 0 {
+		m.privs = v.privs
+	}
+	if v.ddp != "" {
+		m.ddp = v.ddp
+	}
+	if v.noo {
+		m.noo = true
+	}
+	if v.noc {
+		m.noc = true
+	}
+	return &m
 }
 
 func (p *c19Plat) encode() string {
@@ -980,7 +1024,18 @@ func (p *c19Plat) encode() string {
 	}
 	return strings.Join([]string{
 		"fwc=" + vlib.HexList(lv(p.fwc...)), "oo=" + tok(p.oo), "oc=" + tok(p.oc), "noo=" + tok(p.noo), "noc=" + tok(p.noc),
-		"pl=" + vlib.HexList(p.privs), "ddp=" + vlib.Hex([]byte(p.ddp)), "opts=" + ob, "dt=" + p.driverType}, ";")
+		"pl=" + vlib.HexList(p.privs), "ddp=" + vlib.Hex([]byte(p.ddp)), "opts=" + ob, "dt=" + p.driverType}, ";") + p.encodeTail()
+}
+
+func (p *c19Plat) encodeTail() string {
+	t := ""
+	if p.via != "" {
+		t += ";via=" + p.via
+	}
+	if p.variant != nil {
+		t += ";var=" + vlib.Hex([]byte(p.variant.encode()))
+	}
+	return t
 }
 
 func decodePlat(s string) (*c19Plat, error) {
@@ -1015,6 +1070,15 @@ func decodePlat(s string) (*c19Plat, error) {
 		case "ddp":
 			b, _ := vlib.UnHex(v)
 			p.ddp = string(b)
+		case "via":
+			p.via = v
+		case "var":
+			b, _ := vlib.UnHex(v)
+			vp, err := decodePlat(string(b))
+			if err != nil {
+				return nil, err
+			}
+			p.variant = vp
 		case "dt":
 			p.driverType = v
 		case "opts":
@@ -1059,9 +1123,25 @@ func (p *c19Plat) leanPlat() string {
 func c19yq(s string) string { return strconv.Quote(s) } // a Go-quoted string is a valid YAML double-quoted scalar for our alphabet
 
 func (p *c19Plat) yaml() []byte {
+	out := "platform-type: 'verif'\ndefault:\n" + p.body()
+	if p.variant != nil {
+		out += "variants:\n  v1:\n"
+		for _, l := range strings.SplitAfter(p.variant.body(), "\n") {
+			if l != "" {
+				out += "  " + l
+			}
+		}
+	}
+	return []byte(out)
+}
+
+// body: the lines of one platform block (two-space indented, as under `default:`). Multi-line
+// scalars are double-quoted with escapes, so every line of the body is a structural line.
+func (p *c19Plat) body() string {
 	var b strings.Builder
-	b.WriteString("platform-type: 'verif'\ndefault:\n")
-	fmt.Fprintf(&b, "  driver-type: '%s'\n", p.driverType)
+	if p.driverType != "" {
+		fmt.Fprintf(&b, "  driver-type: '%s'\n", p.driverType)
+	}
 	if len(p.privs) > 0 {
 		b.WriteString("  privilege-levels:\n")
 		for _, e := range p.privs {
@@ -1118,7 +1198,7 @@ func (p *c19Plat) yaml() []byte {
 			}
 		}
 	}
-	return []byte(b.String())
+	return b.String()
 }
 
 // documented value type of each platform option name, as the model driver reports it
@@ -1275,9 +1355,29 @@ func runImplWith(ctor string, plat *c19Plat, opts []util.Option) (out c19Out) {
 	out.fields = c19Fields{}
 	switch {
 	case plat != nil:
-		p, err := platform.NewPlatform(plat.yaml(), c19Host, opts...)
+		var src interface{} = plat.yaml()
+		if plat.via == "file" {
+			// NewPlatform / NewPlatformVariant given a path: not an embedded asset, read from disk
+			path := filepath.Join(c19Dir, fmt.Sprintf("plat-%d-%d.yaml", os.Getpid(), c19FileSeq.Add(1)))
+			if werr := os.WriteFile(path, plat.yaml(), 0o644); werr != nil {
+				panic("harness: " + werr.Error())
+			}
+			defer os.Remove(path)
+			src = path
+		}
+		var p *platform.Platform
+		var err error
+		if plat.variant != nil {
+			p, err = platform.NewPlatformVariant(src, "v1", c19Host, opts...)
+		} else {
+			p, err = platform.NewPlatform(src, c19Host, opts...)
+		}
 		if err != nil {
 			out.err = c19errClass(err)
+			return out
+		}
+		if p.GetPlatformType() != "verif" && plat.variant == nil {
+			out.err = "platform-type:" + p.GetPlatformType()
 			return out
 		}
 		if ctor == "network" {
@@ -1507,6 +1607,9 @@ func (cs *c19Case) leanLine() string {
 	if cs.plat != nil {
 		pl = cs.plat.leanPlat()
 	}
+	if cs.plat != nil && cs.plat.variant != nil {
+		return fmt.Sprintf("c19 constructv %s %s %s %s", cs.ctor, pl, cs.plat.variant.leanPlat(), encodeOpts(cs.user))
+	}
 	return fmt.Sprintf("c19 construct %s %s %s", cs.ctor, pl, encodeOpts(cs.user))
 }
 
@@ -1677,6 +1780,48 @@ func runC19(c *ctx) {
 				u = append(u, genOpt(r, name, false))
 			}
 			cases = append(cases, c19Case{class: class, ctor: p.driverType, plat: p, user: u})
+		}
+		// (3a) the other entry points of the platform constructor: NewPlatformVariant (the variant
+		// replaces what it sets, the options block stays the default's) and a definition read from a
+		// file path instead of bytes
+		for i := 0; i < c.n(700, 20000); i++ {
+			mk := func(dt string, full bool) *c19Plat {
+				p := &c19Plat{driverType: dt}
+				if full || r.Chance(1, 2) {
+					p.privs = genOpt(r, "WithPrivilegeLevels", false).args[0]
+				}
+				if full || r.Chance(1, 2) {
+					p.ddp = r.Pick([]string{"exec", "cfg", "p1"})
+				}
+				if r.Chance(1, 2) {
+					p.fwc = []string{r.Pick(c19Words[:5]), r.Pick(c19BoundaryStrings)}
+				}
+				p.oo, p.oc, p.noo, p.noc = r.Chance(1, 3), r.Chance(1, 3), r.Chance(1, 3), r.Chance(1, 3)
+				for j := r.Intn(4); j > 0; j-- {
+					n := platNames[r.Intn(len(platNames))]
+					p.opts = append(p.opts, genPlatOpt(r, n, platDoc[n], false))
+				}
+				return p
+			}
+			p := mk(r.Pick([]string{"network", "generic"}), true)
+			class := "platform-file"
+			if r.Chance(2, 3) {
+				class = "platform-variant"
+				p.variant = mk(r.Pick([]string{"", "", "network", "generic"}), false)
+				if p.variant.body() == "" {
+					// a variant block with nothing in it is a YAML null: NewPlatformVariant dereferences
+					// the nil variant and panics (reported as an observation, outside the quantifier)
+					p.variant.fwc = []string{"% empty"}
+				}
+			}
+			if class == "platform-file" || r.Chance(1, 3) {
+				p.via = "file"
+			}
+			var u []c19Opt
+			for j := r.Intn(5); j > 0; j-- {
+				u = append(u, genOpt(r, c19DriverOpts[r.Intn(len(c19DriverOpts))], false))
+			}
+			cases = append(cases, c19Case{class: class, ctor: p.merged().driverType, plat: p, user: u})
 		}
 		// (3b) directed: options / platform option names whose regenerated table row differs from
 		// the expected row (a table obligation is broken) are sampled heavily with boundary values,
@@ -2122,6 +2267,110 @@ func runC19(c *ctx) {
 			}
 		}
 	}
+	// (5b) platform entry points judged directly: an embedded definition by name with user options
+	// on top (user options win; the platform type is reported), asking a platform for the other
+	// driver flavour, an unknown variant
+	if c.replay == "" {
+		for i := 0; i < c.n(120, 3000); i++ {
+			name := r.Pick([]string{"cisco_iosxe", "arista_eos", "juniper_junos", "nokia_srl", "cisco_nxos", "cisco_iosxr"})
+			var u []c19Opt
+			for j := r.Range(1, 6); j > 0; j-- {
+				u = append(u, genOpt(r, r.Pick([]string{"WithPort", "WithAuthUsername", "WithAuthPassword", "WithFailedWhenContains", "WithOnOpen", "WithNetworkOnOpen",
+					"WithDefaultDesiredPriv", "WithPrivilegeLevels", "WithTransportType", "WithTimeoutOps", "WithPromptSearchDepth", "WithLogger", "WithAuthSecondary",
+					"WithSystemTransportOpenArgs", "WithReturnChar", "WithTermWidth"}), false))
+			}
+			res.Count("class:platform-asset")
+			line := fmt.Sprintf("c19 asset %s %s", name, encodeOpts(u))
+			res.Case(line, true)
+			var d *network.Driver
+			var ptype string
+			err := func() (err error) {
+				defer func() {
+					if rr := recover(); rr != nil {
+						err = fmt.Errorf("panic: %v", rr)
+					}
+				}()
+				p, err := platform.NewPlatform(name, c19Host, c19BuildOpts(u, 0)...)
+				if err != nil {
+					return err
+				}
+				ptype = p.GetPlatformType()
+				d, err = p.GetNetworkDriver()
+				if err != nil {
+					return err
+				}
+				if _, gerr := p.GetGenericDriver(); gerr == nil || !errors.Is(gerr, util.ErrPlatformError) {
+					return fmt.Errorf("GetGenericDriver on a network platform: %v", gerr)
+				}
+				return nil
+			}()
+			if err != nil {
+				res.Fail("oracle", line, fmt.Sprintf("embedded platform %s with user options %v: %v", name, optNames(u), err), "asset:construct")
+				continue
+			}
+			res.InDomain++
+			if ptype != name {
+				res.Fail("oracle", line, fmt.Sprintf("GetPlatformType() = %q for the embedded platform %q", ptype, name), "asset:platform-type")
+			}
+			got := c19Fields{}
+			renderStruct("network.Driver", reflect.ValueOf(d).Elem(), got)
+			renderGeneric(d.Driver, got)
+			exp, _ := goSpec(nil, u)
+			for fk, want := range exp {
+				g, have := got[fk]
+				if !have || fk == "channel.Channel.PromptPattern" {
+					continue
+				}
+				if !valEq(g, want) {
+					res.Fail("oracle", line, fmt.Sprintf("embedded platform %s, user options %v: %s is %s, the user's options say %s", name, optNames(u), fk, showVal(g), showVal(want)), "asset:user-option-lost:"+fk)
+					break
+				}
+			}
+		}
+		// the other flavour / an unknown variant are errors, never panics or nil drivers
+		for _, dt := range []string{"generic", "network"} {
+			p := &c19Plat{driverType: dt, ddp: "exec", privs: lv("exec\x00x>")}
+			line := "c19 getter " + dt
+			res.Case(line, true)
+			err := func() (err error) {
+				defer func() {
+					if rr := recover(); rr != nil {
+						err = fmt.Errorf("panic: %v", rr)
+					}
+				}()
+				pl, err := platform.NewPlatform(p.yaml(), c19Host)
+				if err != nil {
+					return err
+				}
+				gd, gerr := pl.GetGenericDriver()
+				nd, nerr := pl.GetNetworkDriver()
+				if dt == "generic" && (gd == nil || gerr != nil || nd != nil || !errors.Is(nerr, util.ErrPlatformError)) {
+					return fmt.Errorf("generic platform: GetGenericDriver=(%v,%v) GetNetworkDriver=(%v,%v)", gd != nil, gerr, nd != nil, nerr)
+				}
+				if dt == "network" && (nd == nil || nerr != nil || gd != nil || !errors.Is(gerr, util.ErrPlatformError)) {
+					return fmt.Errorf("network platform: GetGenericDriver=(%v,%v) GetNetworkDriver=(%v,%v)", gd != nil, gerr, nd != nil, nerr)
+				}
+				if _, verr := platform.NewPlatformVariant(p.yaml(), "no-such-variant", c19Host); !errors.Is(verr, util.ErrPlatformError) {
+					return fmt.Errorf("unknown variant: %v", verr)
+				}
+				// definitions that cannot be loaded are errors, not panics, through both entry points
+				for _, src := range []interface{}{filepath.Join(c19Dir, "no-such-definition.yaml"), []byte("default: [not, a, mapping")} {
+					if pp, lerr := platform.NewPlatform(src, c19Host); lerr == nil || pp != nil {
+						return fmt.Errorf("NewPlatform(%v) = (%v, %v)", src, pp != nil, lerr)
+					}
+					if pp, lerr := platform.NewPlatformVariant(src, "v1", c19Host); lerr == nil || pp != nil {
+						return fmt.Errorf("NewPlatformVariant(%v) = (%v, %v)", src, pp != nil, lerr)
+					}
+				}
+				return nil
+			}()
+			if err != nil {
+				res.Fail("oracle", line, err.Error(), "platform-getter")
+			}
+		}
+	}
+	// (6) effect class: open the driver and judge every option where it acts (c19_effect.go)
+	nEffects := runC19Effects(c, baseline, platNames, platDoc)
 	// observations outside the property's quantifier (reported, never gating)
 	if c.replay == "" {
 		for _, pr := range []struct {
@@ -2135,6 +2384,18 @@ func runC19(c *ctx) {
 			p := &c19Plat{driverType: "generic", opts: []c19PlatOpt{pr.o}}
 			out := runImpl("generic", p, nil)
 			res.Note("observation (out of domain): %s -> panicked=%v %s", pr.what, out.panicked, out.pmsg)
+		}
+		func() {
+			defer func() {
+				if rr := recover(); rr != nil {
+					res.Note("observation (out of domain): NewPlatformVariant with an empty variant block (`variants: {v1: }`) panics: %v", rr)
+				}
+			}()
+			_, err := platform.NewPlatformVariant([]byte("platform-type: 'x'\ndefault:\n  driver-type: 'generic'\nvariants:\n  v1:\n"), "v1", c19Host)
+			res.Note("observation: NewPlatformVariant with an empty variant block returns err=%v", err)
+		}()
+		if pv, err := platform.NewPlatformVariant([]byte("platform-type: 'x'\ndefault:\n  driver-type: 'generic'\nvariants:\n  v1:\n    failed-when-contains: ['e']\n"), "v1", c19Host); err == nil {
+			res.Note("observation: a platform built by NewPlatformVariant reports GetPlatformType()=%q (NewPlatform reports the definition's platform-type)", pv.GetPlatformType())
 		}
 		p := &c19Plat{driverType: "generic", opts: []c19PlatOpt{{name: "auth-strict-key", kind: 'b', b: true}}}
 		out := runImpl("generic", p, nil)
@@ -2216,7 +2477,7 @@ func runC19(c *ctx) {
 			fd.Case, fd.Detail = cur.line(), detail
 		}
 	}
-	res.TracesVsImpl = len(cases) + len(reuses)
+	res.TracesVsImpl = len(cases) + len(reuses) + nEffects
 }
 
 func c19Pick2(r *vlib.Rng, a, b int) int {
